@@ -87,6 +87,57 @@ def grow_drain_refill(r, val, up, keep, refill, tail):
     return ops
 
 
+def mark(o):
+    """the same operation, not observed afterwards (no Len(), no array dump)"""
+    return o if o.endswith("~") else o + "~"
+
+
+def sparsify(r, ops):
+    """Sparse observation: every operation's own answer is still compared, but Len() and the array dump are
+    taken only after about a third of the operations, with unobserved runs of 2..5 operations in between
+    (so that a state that is only wrong between two observations, or a cache refreshed by the observation
+    itself, cannot hide).  Len operations inside unobserved stretches become Peeks."""
+    out, i = [], 0
+    while i < len(ops):
+        if r.random() < 0.3:
+            n = r.randint(2, 5)
+            out += [mark("p" if o == "l" else o) for o in ops[i:i + n]]
+            i += n
+            if i < len(ops) and r.random() < 0.6:
+                out.append(ops[i])
+                i += 1
+        else:
+            o = ops[i]
+            out.append(o if r.random() < 1 / 3 else mark("p" if o == "l" else o))
+            i += 1
+    return out
+
+
+def constant_length_ops(r, n, val, prefill):
+    """Unobserved runs that keep the length constant (Dequeue-then-Enqueue, Enqueue-then-Dequeue, Peek
+    bursts between mutations), separated by single observed operations."""
+    ops = ["e%d" % val() for _ in range(prefill)]
+    ops = [o if r.random() < 0.3 else mark(o) for o in ops]
+    while len(ops) < n:
+        pat = r.choice(["de", "de", "ed", "peeks", "mut-peeks", "mixed"])
+        k = r.randint(1, 3)
+        if pat == "de":
+            for _ in range(k):
+                ops += ["d~", "e%d~" % val()]
+        elif pat == "ed":
+            for _ in range(k):
+                ops += ["e%d~" % val(), "d~"]
+        elif pat == "peeks":
+            ops += ["p~"] * r.randint(2, 5)
+        elif pat == "mut-peeks":
+            ops += [r.choice(["d~", "e%d~" % val()])] + ["p~"] * r.randint(1, 3) + [r.choice(["d~", "e%d~" % val()])]
+        else:
+            ops += [mark(o) for o in mixed_ops(r, r.randint(2, 5), val) if o != "l"]
+        if r.random() < 0.7:                      # one observed operation
+            ops.append(r.choice(["p", "l", "d", "e%d" % val()]))
+    return ops[:n]
+
+
 def edge_histories():
     """The malformed / boundary stream: calls on empty queues, capacity 1, extremes, all-equal."""
     hs = []
@@ -146,6 +197,29 @@ def gen_histories(c):
         cap = r.randint(65, 100)
         kind, val = value_source(r)
         add("bounded-large", CMPS[i % 3], cap, grow_drain_refill(r, val, cap + 3, r.randint(0, 10), 20, 10))
+    # sparse observation: the same profiles, observed after about a third of the operations only
+    n_s = 160 if not full else 6000
+    for i in range(n_s):
+        kind, val = value_source(r)
+        cm = CMPS[i % 3]
+        sel = i % 8
+        if sel < 2:
+            cap = 1 + (i // 8) % 8
+            add("sparse-bounded", cm, cap, sparsify(r, mixed_ops(r, r.randint(10, 100), val, bias=[0.95, 0.8, 0.6, 0.4, 0.15])))
+        elif sel < 4:
+            cap = r.choice([0, -1, 1 + (i // 8) % 8, 3, 8])
+            add("sparse-constant-length", cm, cap, constant_length_ops(r, r.randint(15, 90), val, r.randint(0, 9)))
+        elif sel < 5:
+            add("sparse-unbounded", cm, r.choice([0, -1, -5]), sparsify(r, mixed_ops(r, r.randint(10, 120), val)))
+        elif sel < 7:
+            ops = grow_drain_refill(r, val, r.randint(64, 82), r.randint(0, 31), r.randint(3, 40), r.randint(0, 12))
+            add("sparse-grow-drain-refill", cm, r.choice([0, -1, -9]), sparsify(r, ops))
+        else:
+            # around the Shrink threshold without looking: grow, drain unobserved to ~32, oscillate, then look
+            up = r.randint(64, 80)
+            ops = [mark("e%d" % val()) for _ in range(up)] + ["d~"] * (up - r.randint(29, 34))
+            ops += constant_length_ops(r, r.randint(10, 40), val, 0) + ["p", "d", "l"]
+            add("sparse-shrink-threshold", cm, r.choice([0, -1]), ops)
     if full:
         for i in range(3):                            # capacity > 2048: the 0.625 branch of calCapacity
             kind, val = value_source(r)
@@ -205,13 +279,16 @@ INT_RE = re.compile(r"-?[0-9]+\Z")
 
 def spec_items(ops, entries):
     """Feed the implementation's own answers to the abstract specification; after every call the
-    observed Len() is added as a Len answer (item 2i = the call, item 2i+1 = Len() after it)."""
-    items = []
-    for op, (ans, ln, _arr) in zip(ops, entries):
+    observed Len() (when it was observed) is added as a Len answer."""
+    items, where = [], []          # where[j] = (operation index, is the synthetic Len() observation)
+    for oi, (op, (ans, ln, _arr)) in enumerate(zip(ops, entries)):
         a = ans if re.match(r"(ok(:-?[0-9]+)?|len:-?[0-9]+|err:(full|empty|other))\Z", ans) else "panic"
-        items.append("%s=%s" % (op, a))
-        items.append("l=len:%s" % ln if INT_RE.match(ln) else "l=panic")
-    return items
+        items.append("%s=%s" % (op.rstrip("~"), a))
+        where.append((oi, False))
+        if ln != "-":              # "-": not observed after this operation
+            items.append("l=len:%s" % ln if INT_RE.match(ln) else "l=panic")
+            where.append((oi, True))
+    return items, where
 
 
 def decide(c, binary, hists, variant="int"):
@@ -223,7 +300,7 @@ def decide(c, binary, hists, variant="int"):
     lines = ["%s %s %d %s" % (variant, cm, cap, " ".join(ops)) for cm, cap, ops in hists]
     impl = run_impl_chunked(c, binary, lines, per_chunk=200, timeout=120, hang_ms=800)
     verdicts = [None] * len(hists)
-    spec_in, spec_idx, inv_in, inv_idx = [], [], [], []
+    spec_in, spec_idx, inv_in, inv_idx, wheres = [], [], [], [], {}
     for hi, ((cm, cap, ops), line) in enumerate(zip(hists, impl)):
         if line.startswith("notrun"):
             continue
@@ -233,10 +310,12 @@ def decide(c, binary, hists, variant="int"):
                             if line.startswith("hang") else "the harness process died on this history")
             continue
         entries = parse_line(line)
-        spec_in.append("%s %d %s" % (cm, cap, " ".join(spec_items(ops, entries))))
+        items, where = spec_items(ops, entries)
+        wheres[hi] = where
+        spec_in.append("%s %d %s" % (cm, cap, " ".join(items)))
         spec_idx.append(hi)
         for oi, (ans, ln, arr) in enumerate(entries):
-            if arr in ("panic", "?", "noslot0"):
+            if arr in ("panic", "?", "noslot0", "-"):
                 continue
             inv_in.append("%s %s" % (cm, arr if arr else "-"))
             inv_idx.append((hi, oi))
@@ -247,9 +326,9 @@ def decide(c, binary, hists, variant="int"):
         entries = parse_line(impl[hi])
         if so.startswith("reject"):
             j = int(so.split()[1])
-            oi = min(j // 2, len(ops) - 1)
+            oi, is_len = wheres[hi][j] if j < len(wheres[hi]) else (len(ops) - 1, False)
             ans = entries[oi][0] if oi < len(entries) else "?"
-            verdicts[hi] = ("answer" if j % 2 == 0 else "len", oi,
+            verdicts[hi] = ("len" if is_len else "answer", oi,
                             "after %s the implementation answers %r, Len()=%s; the sorted multiset does not allow it"
                             % (ops[oi], ans, entries[oi][1] if oi < len(entries) else "?"))
         elif len(entries) < len(ops):
@@ -301,10 +380,16 @@ def minimise(c, binary, hist, kind, variant="int"):
         else:
             chunk //= 2
     # rename values to small ranks (keeps the order and, for mod3, the residues when possible)
-    vals = sorted({int(o[1:]) for o in ops if o[0] == "e"})
+    vals = sorted({int(o[1:].rstrip("~")) for o in ops if o[0] == "e"})
     if vals and cm != "mod3":
         ren = {x: i for i, x in enumerate(vals)}
-        cand = [("e%d" % ren[int(o[1:])]) if o[0] == "e" else o for o in ops]
+        cand = [("e%d%s" % (ren[int(o[1:].rstrip("~"))], "~" if o.endswith("~") else "")) if o[0] == "e" else o for o in ops]
+        vv = decide(c, binary, [(cm, cap, cand)], variant)[0]
+        if vv is not None and vv[0] == v[0]:
+            ops, v = cand, vv
+    # a failure that survives full observation is replayed fully observed; otherwise the markers stay
+    if any(o.endswith("~") for o in ops):
+        cand = [o.rstrip("~") for o in ops]
         vv = decide(c, binary, [(cm, cap, cand)], variant)[0]
         if vv is not None and vv[0] == v[0]:
             ops, v = cand, vv
@@ -379,10 +464,12 @@ def crosscheck(c, hists, model, idx):
 def run_pq(c, binary):
     hists = gen_histories(c)
     r = random.Random(c.seed + 11)
-    cross_idx = set(r.sample(range(len(hists)), min(150, len(hists))))
+    observed = [i for i, h in enumerate(hists) if not h[0].startswith("sparse")]
+    cross_idx = set(r.sample(observed, min(150, len(observed))))
     # ---- evidence: what the histories exercised (measured on the model's run)
     dist, stats = {}, {"ops": 0, "err_full": 0, "err_empty": 0, "dequeues_ok": 0, "max_len": 0,
-                       "histories_past_64_then_below_32": 0, "public_wrapper_histories": 0, "tie_histories": 0}
+                       "histories_past_64_then_below_32": 0, "public_wrapper_histories": 0, "tie_histories": 0,
+                       "sparse_histories": 0, "unobserved_ops": 0}
     impl, model = {}, {}           # only the lines needed later (diverging histories, cross-check sample)
     bad, n_notrun, stop = [], 0, False
     BATCH = 1000                   # bounds the memory held for the array dumps
@@ -405,6 +492,9 @@ def run_pq(c, binary):
             stats["err_full"] += sum(1 for e in entries if e[0] == "err:full")
             stats["err_empty"] += sum(1 for e in entries if e[0] == "err:empty")
             stats["dequeues_ok"] += sum(1 for o, e in zip(h[4], entries) if o == "d" and e[0].startswith("ok"))
+            stats["unobserved_ops"] += sum(1 for e in entries if e[1] == "-")
+            if h[0].startswith("sparse"):
+                stats["sparse_histories"] += 1
             if h[1] == "pub":
                 stats["public_wrapper_histories"] += 1
             if h[2] == "mod3":
@@ -523,6 +613,9 @@ def finish(c, with_skip):
              "VERIF_SEED in profiles edge (calls on empty, capacity 1, int64 extremes, all-equal), bounded (capacities 1..8, fill/hold/drain "
              "segments), unbounded (capacity 0 / negative), grow-drain-refill (past 64 elements, below 32, refill: append re-allocation and "
              "slice.Shrink), bounded-large; after every operation answer class/value, Len() and the heap array are compared with the model; "
+             "sparse-* profiles: the same, but Len() and the array dump are taken only after about a third of the operations, with unobserved "
+             "runs of 2..5 operations (Dequeue-then-Enqueue at constant length, Peek bursts between mutations, drains across the Shrink "
+             "threshold) while every operation's own answer is still compared and the model skips the same observations; "
              "non-trivial = at least 3 operations and at least one Dequeue/Peek that returned a value; distinct by md5 of the history text. "
              "Skip list: see checks/c05_skip.py",
         assumptions=["slice.Shrink and append preserve the contents of the slice (capacity is not observable through PriorityQueue; modelled as identity, "
